@@ -89,6 +89,15 @@ func (authStateBase) receiveDHCommitMessage(c *Conversation, msg []byte) (authSt
 	return authStateNone{}.receiveDHCommitMessage(c, msg)
 }
 
+func (s authStateAwaitingSig) receiveDHCommitMessage(c *Conversation, msg []byte) (authState, messageWithHeader, error) {
+	// a commit that does not even parse must not cost us the exchange in progress
+	if err := new(dhCommit).deserialize(msg); err != nil {
+		return s, nil, err
+	}
+
+	return authStateNone{}.receiveDHCommitMessage(c, msg)
+}
+
 func (s authStateNone) receiveDHCommitMessage(c *Conversation, msg []byte) (authState, messageWithHeader, error) {
 	c.ake.wipe(true)
 
@@ -110,6 +119,10 @@ func (s authStateNone) receiveDHCommitMessage(c *Conversation, msg []byte) (auth
 }
 
 func (s authStateAwaitingRevealSig) receiveDHCommitMessage(c *Conversation, msg []byte) (authState, messageWithHeader, error) {
+	if err := new(dhCommit).deserialize(msg); err != nil {
+		return s, nil, err
+	}
+
 	//As per spec, we forget the old DH-commit (received before we sent the DH-Key)
 	//and use this one, so we forget all the keys
 	c.ake.keys = c.ake.keys.wipeAndKeepRevealKeys()
